@@ -271,9 +271,16 @@ def i_class(F, res):
     """from_asset(policy, name, amount) must send each of the four presence combinations to the constructor of its own
     class - lovelace only when *both* are absent - and must test the presence of the caller's policy / name themselves (an
     empty byte string is a policy / name of length 0, not an absent one)."""
-    f = F.fn(CA + "::from_asset")
-    du = mir.DefUse(f)
     want = {"from_naked_amount": {1: "None", 2: "None"}, "from_named_asset": {1: "None", 2: "Some"}, "from_defined_asset": {1: "Some"}}
+
+    def want_cls(t, callee):
+        # helpers of the module that choose the class themselves (`AssetClass::from_parts(policy, name)`); the three class
+        # constructors and the amount constructor stay calls
+        return _asset_helpers(t, callee) and callee.get("name") not in want and callee.get("name") != "from_class_and_amount"
+    _KEEP.append(want_cls)
+    f = mir.inline_calls(F, F.fn(CA + "::from_asset"), want=want_cls, depth=2)
+    du = mir.DefUse(f)
+    BY_VARIANT = {"Naked": "from_naked_amount", "Named": "from_named_asset", "Defined": "from_defined_asset"}
     names = {1: "policy", 2: "name"}
     reached = {}
     indirect = []
@@ -295,6 +302,10 @@ def i_class(F, res):
                     dmap[s["lhs"]["l"]] = prm
                     if not direct:
                         indirect.append((s["line"], prm))
+        for s in b["s"]:
+            if s["rv"]["k"] == "agg" and s["rv"].get("adt") == "tx3_tir::model::assets::AssetClass" and s["rv"].get("variant") in BY_VARIANT and b.get("inl"):
+                # the class is built in place by an inlined helper
+                reached.setdefault(BY_VARIANT[s["rv"]["variant"]], set()).add((state, s["line"]))
         t = b["t"]
         if t["k"] == "call":
             c = (t.get("callee") or "").split("::")[-1]
